@@ -27,10 +27,10 @@ import (
 // and the blocked API call must return a context error within 3 s.
 
 type c13Case struct {
-	State   string // zk-blocked meta-unanswered probe-unanswered dial-hanging retry-backoff lookup-backoff send-queue-busy server-silent
-	Entry   string // get get-unbatched batch batch-call-ctx scan
-	Expire  bool   // deadline expiry instead of cancel
-	Seed    int64
+	State  string // zk-blocked meta-unanswered probe-unanswered dial-hanging retry-backoff lookup-backoff send-queue-busy server-silent
+	Entry  string // get get-unbatched batch batch-call-ctx scan
+	Expire bool   // deadline expiry instead of cancel
+	Seed   int64
 }
 
 func (c c13Case) String() string {
@@ -249,9 +249,9 @@ func runC13Case(c *fw.Ctx, id string, cs c13Case) {
 	}
 	defer cancel()
 	type result struct {
-		err     error
-		errs    []error
-		t       time.Time
+		err  error
+		errs []error
+		t    time.Time
 	}
 	done := make(chan result, 1)
 	key := "p1" // region on rs1
